@@ -361,6 +361,18 @@ def run(fx, rep, tier):
             for o in s8.obls:
                 o["rule"] = "C04-R8"
                 rep.obls.append(o)
+        if cfg == "dev":
+            # an integer power equals repeated multiplication and a zero power is the dimensionless one - also for a base
+            # that is zero ((0 m)^0 = 1): the piecewise summary of eval::pow
+            from . import c01
+            rep.rule("C04-R10", "the value of a power: eval::pow returns base^n on every path, 1 for n = 0 whatever the base, an "
+                                "error for a zero base with a negative exponent (piecewise summary of eval::pow, shared with C01-R4)")
+            s10 = type(rep)(rep.prop, rep.tier)
+            c01.r4_operators(facts, s10)
+            for o in s10.obls:
+                if o["rule"] == "C01-R4" and o["key"].startswith("pow"):
+                    o["rule"] = "C04-R10"
+                    rep.obls.append(o)
         if sub is not rep:
             for o in sub.obls:
                 o["key"] += "[rel]"
